@@ -380,8 +380,8 @@ impl AsmLine {
             Label::Ref(val) => val,
             Label::Unfilled(_) => panic!("Tried to offset unfilled label"),
         };
-        // Widened so that distances beyond the i16 range are rejected rather than wrapped
-        let offset = *label_pos as i32 - self.line as i32 - 1;
+        // Distance modulo 2^16 as a signed value (addresses wrap), widened so that the range check cannot overflow
+        let offset = label_pos.wrapping_sub(self.line).wrapping_sub(1) as i16 as i32;
         // Must fit in specified offset bits
         if offset.abs() > 2i32.pow(bits - 1) - if offset > 0 { 1 } else { 0 } {
             bail!(
